@@ -312,6 +312,9 @@ func fieldLoads(v ssa.Value, depth int, seen map[ssa.Value]bool, out *[]*ssa.UnO
 		}
 	case *ssa.Extract:
 		fieldLoads(x.Tuple, depth+1, seen, out)
+	case *ssa.Lookup:
+		fieldLoads(x.X, depth+1, seen, out)
+		fieldLoads(x.Index, depth+1, seen, out)
 	case *ssa.IndexAddr:
 		fieldLoads(x.X, depth+1, seen, out)
 	case *ssa.Index:
